@@ -24,6 +24,9 @@ pub fn standard_files() -> Vec<FileSpec> {
         reg("noext", b"k: v\nlist: [1, 2]\n"),
         reg("empty.json", b""),
         reg("MIXED.YmL", b"x: 1\n"),
+        // a file whose name is a single dash, reachable as "./-" (only the bare
+        // operand "-" means standard input)
+        reg("./-", b"{\"dash\": true}\n"),
         // a file name that is not valid UTF-8 (the marker stands for the byte 0xE9)
         FileSpec { name: format!("caf{}.json", NON_UTF8_MARK), kind: FileKind::Regular(b"[\"latin1 name\"]".to_vec()) },
         FileSpec { name: "pipe.json".into(), kind: FileKind::Fifo(b"[1,2,3]".to_vec()) },
@@ -45,7 +48,7 @@ fn vocabulary_base() -> Vec<&'static str> {
     vec![
         "-f", "-t", "-fjson", "-fj", "-f=yaml", "-fy", "-fm", "-ft", "-ftoml", "-tm", "-tmsgpack", "-t=toml", "-tt", "-ty", "-tyaml", "-tj", "json", "j", "yaml", "toml", "m", "xml", "JSON", "-fxml", "-t=", "-x",
         "--foo", "--format=json", "-h", "--help", "-V", "--version", "--", "-", "good.json", "good.yaml", "good.toml", "good.msgpack", "bad.json", "undetectable.txt", "nullroot.json", "noext", "empty.json",
-        "MIXED.YmL", "pipe.json", "dir", "missing.json",
+        "MIXED.YmL", "pipe.json", "dir", "missing.json", "./-",
     ]
 }
 
@@ -109,10 +112,10 @@ impl Check for C13 {
         true
     }
     fn units(&self, tier: Tier) -> Vec<Unit> {
-        vec![Unit::enumerate("enumerate", 16), Unit::enumerate("pty", 4), Unit::enumerate("unwritable", 4), Unit::gen("random", 16, tier.pick(600, 5000))]
+        vec![Unit::enumerate("enumerate", 16), Unit::enumerate("pty", 4), Unit::enumerate("unwritable", 4), Unit::enumerate("argv0", 4), Unit::gen("random", 16, tier.pick(600, 5000))]
     }
     fn required_classes(&self, _tier: Tier) -> Vec<&'static str> {
-        vec!["outcome:info", "outcome:usage", "outcome:ok", "outcome:failed", "outcome:tty_refused", "stdout:Pipe", "stdout:File", "stdout:Pty", "unwritable_stream"]
+        vec!["outcome:info", "outcome:usage", "outcome:ok", "outcome:failed", "outcome:tty_refused", "stdout:Pipe", "stdout:File", "stdout:Pty", "unwritable_stream", "argv0_not_utf8"]
     }
     fn run_unit(&self, unit: &Unit, shard: u32, seed: u64, tier: Tier, rec: &mut Recorder) {
         match unit.name {
@@ -238,12 +241,60 @@ impl Check for C13 {
                     }
                 }
             }
+            "argv0" => {
+                // the program may be started under any name (a symlink, exec -a): a name
+                // that is not UTF-8 changes at most the text of the usage line
+                use crate::cli::{run_xt_full, Scratch, StderrSpec, StdinSpec, StdoutSpec, ARGV0_OVERRIDE};
+                let cases: Vec<(Vec<&str>, i32)> = vec![
+                    (vec![], 0),
+                    (vec!["good.json"], 0),
+                    (vec!["missing.json"], 1),
+                    (vec!["bad.json"], 1),
+                    (vec!["-x"], 2),
+                    (vec!["-f"], 2),
+                    (vec!["-fxml"], 2),
+                    (vec!["-txml", "good.json"], 2),
+                    (vec!["--foo"], 2),
+                    (vec!["-h"], 0),
+                    (vec!["--help"], 0),
+                    (vec!["-V"], 0),
+                    (vec!["--version"], 0),
+                ];
+                let mut n = 0u32;
+                for (args, want) in &cases {
+                    for name in [&b"x\xfft"[..], &b"\xe9"[..], &b""[..], &b"a b\n"[..]] {
+                        for bin in [Bin::Debug, Bin::Release] {
+                            n += 1;
+                            if n % unit.shards != shard {
+                                continue;
+                            }
+                            let sc = Scratch::new("c13a");
+                            for f in standard_files() {
+                                if let FileKind::Regular(b) = &f.kind {
+                                    sc.file(&f.name, b);
+                                }
+                            }
+                            let os: Vec<std::ffi::OsString> = args.iter().map(std::ffi::OsString::from).collect();
+                            ARGV0_OVERRIDE.with(|a| *a.borrow_mut() = Some(name.to_vec()));
+                            let res = run_xt_full(bin, &os, &sc.dir, StdinSpec::Bytes(b"{}".to_vec()), StdoutSpec::Pipe, StderrSpec::Pipe, vec![], 60);
+                            ARGV0_OVERRIDE.with(|a| *a.borrow_mut() = None);
+                            let cj = json!({"unit": "argv0", "args": args, "argv0": hex(name), "bin": bin.name(), "want": want});
+                            if res.code != Some(*want) {
+                                rec.fail(format!("xt {:?} started under the name {:?} [{}]: expected exit {}, got {}", args, brief_bytes(name), bin.name(), want, res.brief()), cj);
+                                return;
+                            }
+                            rec.count(Some(hash_of(&cj.to_string())));
+                            rec.class("argv0_not_utf8");
+                        }
+                    }
+                }
+            }
             "random" => run_prop(rec, seed, unit.cases, random_invocation(), |i| i.to_json("random"), run_invocation),
             other => panic!("unknown unit {}", other),
         }
     }
     fn replay(&self, case: &J) -> Result<(), String> {
-        if case["unit"].as_str() == Some("unwritable") {
+        if matches!(case["unit"].as_str(), Some("unwritable") | Some("argv0")) {
             return Err("re-run ./check C13 quick (the unwritable unit is a fixed enumeration)".into());
         }
         run_invocation(&Invocation::from_json(case).ok_or("bad invocation")?, &mut Recorder::default())
